@@ -309,7 +309,8 @@ class NormalizeCat(Command):
         )
 
         for raw, normal in zip(raw_values, normal_values):
-            result[arr.data == raw] = normal
+            result[numpy.ma.getdata(arr) == raw] = normal
+        result.mask = numpy.ma.getmaskarray(arr).copy()
 
         return result
 
